@@ -121,6 +121,23 @@ impl Family for C18Family {
                 }
             }
         }
+        // now and then a request that is large on the wire: an allow / exclude list of 17-48 descriptors
+        // (well above the 1024 bytes a CTAP2 transport guarantees by default)
+        for op in c.actors[0].ops.iter_mut() {
+            if r.chance(1, 10) {
+                let n = r.range(17, 48) as usize;
+                let mut list: Vec<IdRef> = (0..n).map(|_| IdRef::Unknown(r.bytes(32))).collect();
+                if r.bool() {
+                    let at = r.usize(n);
+                    list[at] = IdRef::Nth(r.below(3) as u32);
+                }
+                match &mut op.kind {
+                    OpKind::MakeCredential(s) => s.exclude = Some(list),
+                    OpKind::GetAssertion(s) => s.allow = Some(list),
+                    _ => {}
+                }
+            }
+        }
         // pinAuth (present, and present but zero-length: the CTAP 2.0 selection probe) now and then
         for op in c.actors[0].ops.iter_mut() {
             if r.chance(1, 8) {
@@ -156,7 +173,7 @@ impl Family for C18Family {
         direct.twin = Twin::None;
         let rec = run_and_measure(&direct, stats);
         let mut j = Judge::new("C18", scn, &rec);
-        for p in ["three_denied_verifications_in_a_row", "capability_changed_between_calls", "get_info_through_trait", "make_credential_through_trait", "get_assertion_through_trait", "failing_op_through_trait", "cancelled_op_through_trait", "zero_length_pin_auth", "configured_transports_in_get_info"] {
+        for p in ["three_denied_verifications_in_a_row", "capability_changed_between_calls", "get_info_through_trait", "make_credential_through_trait", "get_assertion_through_trait", "failing_op_through_trait", "cancelled_op_through_trait", "zero_length_pin_auth", "configured_transports_in_get_info", "request_above_1024_bytes"] {
             stats.declare_probe(p);
         }
         if rec.panic.is_some() || rec.outcome != Outcome2::Done {
@@ -205,12 +222,18 @@ impl Family for C18Family {
                 }
                 OpKind::MakeCredential(m) => {
                     stats.probe("make_credential_through_trait");
+                    if m.exclude.as_ref().is_some_and(|l| l.len() >= 17) {
+                        stats.probe("request_above_1024_bytes");
+                    }
                     if m.pin_auth && m.pin_empty {
                         stats.probe("zero_length_pin_auth");
                     }
                 }
                 OpKind::GetAssertion(g) => {
                     stats.probe("get_assertion_through_trait");
+                    if g.allow.as_ref().is_some_and(|l| l.len() >= 17) {
+                        stats.probe("request_above_1024_bytes");
+                    }
                     if g.pin_auth && g.pin_empty {
                         stats.probe("zero_length_pin_auth");
                     }
